@@ -1045,9 +1045,41 @@ impl ZooMsg for ModeVec {
     }
 }
 
+// T23: sized struct ending in an array of content-constrained items
+
+#[flat(default = true)]
+pub struct ArrLast {
+    pub id: u16,
+    pub on: [Bool; 4],
+}
+
+impl ZooMsg for ArrLast {
+    const NAME: &'static str = "ArrLast";
+    fn gen(g: &mut Gen) -> Val {
+        let id = g.int(16, false);
+        Val::R(vec![Val::I(id), Val::L((0..4).map(|_| Val::B(g.boolean())).collect())])
+    }
+    fn emplace_val<'b>(bytes: &'b mut [u8], v: &Val) -> Result<&'b mut Self, Error> {
+        let on = v.field(1);
+        Self::new_in_place(
+            bytes,
+            ArrLast {
+                id: v.field(0).int() as u16,
+                on: [Bool::from(on.field(0).boolean()), Bool::from(on.field(1).boolean()), Bool::from(on.field(2).boolean()), Bool::from(on.field(3).boolean())],
+            },
+        )
+    }
+    fn read(&self) -> Val {
+        Val::R(vec![Val::I(self.id as i128), Val::L(self.on.iter().map(rd_bool).collect())])
+    }
+    fn tweak(&mut self, g: &mut Gen) {
+        self.on[g.pick(4) as usize] = Bool::from(g.boolean());
+    }
+}
+
 // ---------------------------------------------------------------------------------------------
 
-pub const N_TYPES: usize = 23;
+pub const N_TYPES: usize = 24;
 pub const TYPE_NAMES: [&str; N_TYPES] = [
     "TestMsg",
     "PadTail",
@@ -1072,6 +1104,7 @@ pub const TYPE_NAMES: [&str; N_TYPES] = [
     "FlexVec<FlatString<le::U16>,le::U16>",
     "FlexVec<FlatVec<u16,u16>,le::U32>",
     "FlatVec<Mode,u8>",
+    "ArrLast",
 ];
 
 /// Dispatch a generic call over the zoo by index.
@@ -1101,7 +1134,8 @@ macro_rules! with_zoo_type {
             19 => $f::<$crate::zoo::ArrTail>($($args),*),
             20 => $f::<$crate::zoo::PFlexS>($($args),*),
             21 => $f::<$crate::zoo::PFlexV>($($args),*),
-            _ => $f::<$crate::zoo::ModeVec>($($args),*),
+            22 => $f::<$crate::zoo::ModeVec>($($args),*),
+            _ => $f::<$crate::zoo::ArrLast>($($args),*),
         }
     };
 }
